@@ -14,9 +14,6 @@ using TO = tfel::material::FiniteStrainBehaviourTangentOperatorBase;
 #define TT_GROUP 0
 #endif
 #define TSC scalar_of<decltype(in)>
-#ifndef C23_COROT_ALL
-#define C23_COROT_ALL 0  // 1: generate the obligations of corotational <-> PK2 in 2D / 3D too (development switch)
-#endif
 
 template <char K, unsigned short N, typename T>
 auto mk(const V<T>& v) {
@@ -110,12 +107,12 @@ void reg_stress() {
     using T = TSC;
     stensor<N, T> r = convertCorotationnalCauchyStressToSecondPiolaKirchhoffStress(mk_s<N>(in[0]), mk_s<N>(in[1]));
     return fl(r);
-  }, 0, "det2 (full_s $N b) <> 0", N == 1 || C23_COROT_ALL);  // N>1: execution only (the closing tactic cannot relate the Mandel determinant to det2; proved under C01)
+  }, N == 1 ? 0 : 1, "det2 (full_s $N b) <> 0");  // (round 4: `nonzero` of TensorTactics.v relates the Mandel determinant to det2; 2D 50, 3D 145 CPU-s: thorough tier)
   reg("pk2_to_corot", N, "ss", 's', [](const auto& in) {  // s = U S U / J
     using T = TSC;
     stensor<N, T> r = convertSecondPiolaKirchhoffStressToCorotationnalCauchyStress(mk_s<N>(in[0]), mk_s<N>(in[1]));
     return fl(r);
-  }, 0, "det2 (full_s $N b) <> 0", N == 1 || C23_COROT_ALL);
+  }, N == 1 ? 0 : 1, "det2 (full_s $N b) <> 0");
   // helpers of the converters
   reg("jaumann_moduli", N, "As", 'A', [](const auto& in) {  // convertSpatialModuliToKirchhoffJaumanRateModuli(C, tau)
     using T = TSC;
